@@ -232,6 +232,15 @@ def openssl_roundtrip(ctx, dist):
             keys.append(("RSA %s public" % b, G.pub_of(rsa[b])))
     except Exception:
         pass
+    # symmetric keys go through EVP_PKEY (an HMAC key) as well: every octet string comes back, leading zero octets included
+    rnd_o = random.Random(ctx["seed"] + 5)
+    for n in (1, 2, 16, 20, 32, 48, 64, 65, 255, 1024):
+        for lead in (False, True):
+            kb = bytes(rnd_o.getrandbits(8) for _ in range(n))
+            if lead:
+                kb = b"\x00" + kb[1:]
+            keys.append(("oct %d octets%s" % (n, " leading zero" if lead else ""), {"kty": "oct", "k": G.b64(kb)}))
+    keys.append(("oct with metadata", {"kty": "oct", "k": G.b64(b"sixteen byte key"), "alg": "HS256"}))
     cases = ["osslrt\t%s" % J(k) for _, k in keys]
     outs = G.harness(bdir, cases)
     thp = G.harness(bdir, ["thp\t%s\tS256" % J(k) for _, k in keys])
@@ -241,6 +250,8 @@ def openssl_roundtrip(ctx, dist):
             rep.violation("ossl-roundtrip:crash", "crash: " + o[:200], {"case": c})
             continue
         for route, txt in zip(("EVP_PKEY", "EC_KEY/RSA"), o.split("\t")):
+            if txt == "-":
+                continue
             if txt == "ERR":
                 rep.violation("ossl-roundtrip:failed:%s:%s" % (route, tag.split(" ")[0]), "%s: conversion through %s failed for a valid key" % (tag, route), {"case": c})
                 continue
@@ -255,7 +266,7 @@ def openssl_roundtrip(ctx, dist):
     for (tag, k, b), o in zip(recheck, eq):
         if o != "T":
             rep.violation("ossl-roundtrip:not-equal:" + tag.split(" ")[0], "%s: the key that comes back from OpenSSL is not jose_jwk_eql to the original" % tag, {"key": J(k), "back": J(b)})
-    dist["OpenSSL round trips (EC keys with leading-zero x / y / d on four curves, RSA)"] = len(cases)
+    dist["OpenSSL round trips (EC keys with leading-zero x / y / d on four curves, RSA, oct keys of 1..1024 octets)"] = len(cases)
     return len(cases) + len(recheck)
 
 
